@@ -8,6 +8,17 @@ TRUST = ["Eigen dense self-adjoint eigen-solver, LU and MatrixFunctions::exp use
          "held on the executions observed only; nothing is claimed for inputs/schedules that were not run"]
 
 VH = {
+    "C20": dict(drivers=[dict(driver="lattice", flavours=P2, timeout=30)],
+                floor=dict(quick=300, thorough=10000),
+                rule="cases = random call histories (5-40 calls) over one Lattice x {real,complex build}: addSite, raw addTerm (orders 2/4/6; valid, unknown label / orbital / spin out of range at each position, zero amplitude), "
+                     "all Term::Presets factories, all LatticePresets entries (valid and every documented kind of invalid argument), getSite/getSiteMap/getTerms/getMaxTermOrder, copy construction; "
+                     "after every call the real lattice is compared with a sequential reference model (label -> sizes, per-order term lists); calls expected to be refused and all getSite look-ups are rehearsed in a forked child; "
+                     "non-trivial = history has >= 1 accepted valid term/preset call, >= 1 rejected invalid call and >= 2 sites; distinct = the history itself"),
+    "C12": dict(drivers=[dict(driver="wick", flavours=P2, timeout=240)],
+                floor=dict(quick=20, thorough=200),
+                rule="cases = random Hermitian single-particle matrix h over all modes (classes generic / degenerate / zero / block-diagonal / rank-deficient / integers; complex in the complex build, spin-mixing allowed) "
+                     "x beta x partition; monitors: G_ij(z) for all (i,j) at 3 Matsubara and 3 off-axis z vs LU inverse of (z-h); Vertex4::value on the 125-point grid {-2..2}^3 for all (N=2) or 10-30 quadruples must vanish "
+                     "within 2*tol_chi + beta*(|G| tol_G' + |G'| tol_G); non-trivial = some chi non-zero and resonant terms present; distinct by model+partition"),
     "C11": dict(drivers=[dict(driver="gfsym", flavours=P2, timeout=60)],
                 floor=dict(quick=30, thorough=300),
                 rule="cases = generated model x partition x {real,complex}, every 5th with beta in [200,2000] (beta*|pole| up to ~1e4); per index pair: conj symmetry at 4 random off-axis z, "
@@ -56,6 +67,15 @@ HOOK_COMMITS = []
 NOT_YET = {}
 
 INFO = {
+    "C20": dict(technique="runtime model-based monitor: random API call histories on Pomerol::Lattice / LatticePresets vs a sequential reference model of sites and accepted terms",
+                level_text="Every call of ~1000 (quick) / ~50000 (thorough) random histories x {real,complex} is followed by a full comparison of the lattice (site map, per-order term lists, max order) with a reference model: invalid calls must throw and leave the lattice unchanged, "
+                           "zero-amplitude terms must be ignored, valid raw terms must be appended verbatim, presets may only append terms with existing indices, term factories must equal their documented operator on Fock space, look-ups and copies must be faithful; held on what was run, not a proof.",
+                level_note="Operator content of valid LatticePresets calls is C04's subject and not checked here; re-adding an existing label is not exercised; trusts the harness's Jordan-Wigner construction for the factory comparison.",
+                design_ref="DESIGN.md section 3, C20"),
+    "C12": dict(technique="runtime oracle monitor on quadratic models: GreensFunction vs LU inverse of (z-h), Vertex4::value vs 0 (Wick) on a full small frequency grid",
+                level_text="For generated quadratic Hamiltonians (incl. fully degenerate and zero h, which reach every resonant-term branch) the real propagator is compared with the matrix inverse and the real vertex with zero at every frequency triple of a 5x5x5 grid; held on what was run.",
+                level_note="Trusts Eigen LU; N <= 4; tolerances from the documented reductions evaluated per run.",
+                design_ref="DESIGN.md section 3, C12"),
     "C11": dict(technique="runtime invariant/oracle monitors on GreensFunction::operator()(z), of_tau and DensityMatrix occupancies: symmetry, tail, sign, sum rules, quadrature duality",
                 level_text="Analytic identities of the fermionic Green's function are evaluated on the real objects for generated models incl. beta*|pole| ~ 1e4 where the two overflow-avoiding branches of the tau formula matter; tolerances are the documented reductions evaluated per run; held on what was run.",
                 level_note="Trusts Eigen and the Gauss-Legendre nodes; N <= 4 quick / 6 thorough.",
